@@ -8,5 +8,12 @@ CONSTANTS
   N3 = 6
   A4 = {"a", ":", " ", "Z", ">", "~"}
   N4 = 6
+  Lower <- GenLower
+  Upper <- GenUpper
+  Digits <- GenDigits
+  AsciiBlank <- GenAsciiBlank
+  WS <- GenWS
+  BenchChars <- GenBenchChars
+  UnitChars <- GenUnitChars
 INVARIANTS EmitInv OpAgrees Total Disjoint
 CHECK_DEADLOCK FALSE
